@@ -43,6 +43,11 @@ class Ctx:
         self.discard_reason = None
         self.max_err = {}  # name -> largest observed discrepancy in units of tolerance
         self.excluded_known = []
+        self.counters = {}
+
+    def count(self, name, n=1):
+        """extra measured counters (e.g. number of enumerated corruptions inside one case)"""
+        self.counters[name] = self.counters.get(name, 0) + n
 
     # -- reporting -------------------------------------------------------------------------
     def fail(self, signature, **detail):
@@ -143,9 +148,12 @@ class Collector:
         self.max_err = {}
         self.excluded_known = {}
         self.harness_errors = []
+        self.counters = {}
 
     def add(self, case, ctx):
         self.evaluations += 1
+        for k, v in ctx.counters.items():
+            self.counters[k] = self.counters.get(k, 0) + v
         for lab in set(ctx.labels):
             self.labels[lab] = self.labels.get(lab, 0) + 1
         for k, v in ctx.max_err.items():
@@ -188,6 +196,7 @@ class Collector:
             "samples": self.samples,
             "max_err": self.max_err,
             "excluded_known": self.excluded_known,
+            "counters": self.counters,
             "harness_errors": self.harness_errors[:5],
             "n_harness_errors": len(self.harness_errors),
         }
